@@ -38,6 +38,7 @@ def plan(tier, seed):
     shards = [{"kind": "country", "countries": c, "tier": tier, "_name": f"countries-{i}"} for i, c in enumerate(gen.chunk(cs, n))]
     for i in range(2 if tier == "quick" else 16):
         shards.append({"kind": "global", "part": i, "parts": 2 if tier == "quick" else 16, "tier": tier, "_name": f"global-{i}"})
+    shards.append({"kind": "contracts", "tier": tier, "_name": "contracts"})
     return shards
 
 
@@ -211,6 +212,10 @@ def run_global(shard, mon: Mon):
 
 
 def run_shard(shard, out_base):
+    if shard.get("kind") == "contracts":
+        from vf import suite  # noqa: PLC0415
+
+        return suite.run_contract_shard("C01", out_base)
     mon = Mon("C01")
     judge.lib()
     if shard["kind"] == "country":
